@@ -16,6 +16,16 @@ static void srv_log(upd_res *r, const char *kind, const char *range) {
 
 typedef size_t (*body_cb)(void *, size_t, size_t, void *);
 
+/* style bit 1 (values 2, 3): the client chains its own header and write callbacks behind the library's, as zck.h documents;
+ * they accept everything.  zck_dl_reset() forgets them, so they are registered again after every reset. */
+static long app_seen[2];
+static size_t app_cb(void *p, size_t l, size_t c, void *d) { (void)p; *(long *)d += (long)(l * c); return l * c; }
+static int app_register(const upd_cfg *cfg, zckDL *dl) {
+    if(!(cfg->style & 2)) return 1;
+    return zck_dl_set_header_cb(dl, app_cb) && zck_dl_set_header_data(dl, &app_seen[0]) &&
+           zck_dl_set_write_cb(dl, app_cb) && zck_dl_set_write_data(dl, &app_seen[1]);
+}
+
 /* deliver one response; returns 1 when every callback accepted its data, 0 when the transfer was aborted */
 static int serve(const upd_cfg *cfg, zckDL *dl, const char *range, body_cb cb, upd_res *res) {
     const blob *b = cfg->b;
@@ -37,7 +47,7 @@ static int serve(const upd_cfg *cfg, zckDL *dl, const char *range, body_cb cb, u
     blob body;
     /* like real servers, a new boundary for every response */
     char bd[64];
-    snprintf(bd, sizeof bd, "%s%d", cfg->style == 1 ? "=_a+b(c)?." : "3d6b6a416f9b5", res->nreq);
+    snprintf(bd, sizeof bd, "%s%d", (cfg->style & 1) ? "=_a+b(c)?." : "3d6b6a416f9b5", res->nreq);
 #define HDR(...) do { int n_ = snprintf(line, sizeof line, __VA_ARGS__); blob h_ = blob_dup(line, n_); \
                       zck_header_cb((char *)h_.p, 1, h_.n, dl); blob_free(&h_); } while(0)
     HDR("HTTP/1.1 206 Partial Content\r\n");
@@ -48,14 +58,14 @@ static int serve(const upd_cfg *cfg, zckDL *dl, const char *range, body_cb cb, u
         HDR("\r\n");
         body = blob_dup(b->p + rs[0][0], rs[0][1] - rs[0][0] + 1);
     } else {
-        if(cfg->style == 1) HDR("content-type: multipart/byteranges; boundary=\"%s\"\r\n", bd);
+        if(cfg->style & 1) HDR("content-type: multipart/byteranges; boundary=\"%s\"\r\n", bd);
         else HDR("Content-Type: multipart/byteranges; boundary=%s\r\n", bd);
         HDR("\r\n");
         body = blob_new(b->n + nr * 300 + 100);
         size_t n = 0;
         for(int i = 0; i < nr; i++) {
-            n += sprintf((char *)body.p + n, "%s--%s\r\n", (i == 0 && cfg->style == 1) ? "" : "\r\n", bd);
-            if(cfg->style == 1)
+            n += sprintf((char *)body.p + n, "%s--%s\r\n", (i == 0 && (cfg->style & 1)) ? "" : "\r\n", bd);
+            if(cfg->style & 1)
                 n += sprintf((char *)body.p + n, "content-range: bytes %ld-%ld/%zu\r\nContent-Type: application/octet-stream\r\n\r\n", rs[i][0], rs[i][1], b->n);
             else
                 n += sprintf((char *)body.p + n, "Content-Type: application/octet-stream\r\nContent-Range: bytes %ld-%ld/%zu\r\n\r\n", rs[i][0], rs[i][1], b->n);
@@ -89,6 +99,7 @@ static int dl_bytes(const upd_cfg *cfg, zckDL *dl, int fd, size_t bytes, size_t 
     if(start + bytes > *buffer_len) {
         if(lseek(fd, *buffer_len, SEEK_SET) == -1) return 0;
         zck_dl_reset(dl);
+        if(!app_register(cfg, dl)) return 0;
         char *range = zck_get_range(*buffer_len, (start + bytes) - 1);
         if(!range) return 0;
         srv_log(res, "header", range);
@@ -150,6 +161,7 @@ void update_run(const upd_cfg *cfg, int tfd, upd_res *res) {
     while(zck_missing_chunks(tgt) > 0) {
         if(++guard > nchunks + 5) { res->status = UPD_NOTERM; goto out; }
         zck_dl_reset(dl);
+        if(!app_register(cfg, dl)) { res->status = UPD_INTERNAL; goto out; }
         zckRange *range = zck_get_missing_range(tgt, cfg->limit);
         if(range == NULL || !zck_dl_set_range(dl, range)) { res->status = UPD_RANGE; goto out; }
         char *rs = zck_get_range_char(src, range);
